@@ -126,7 +126,9 @@ def run_case(c):
     p = c["prog"]
     p.setdefault("title", "Untitled"); p.setdefault("author", ""); p.setdefault("subtitle", "")
     try:
-        comp = mk_composition(dict(p, title=ascii_in(p["title"]), author=ascii_in(p["author"]), subtitle=ascii_in(p["subtitle"])))
+        # an author is registered together with an e-mail address (the second argument of set_author): the author's name is what is printed
+        comp = mk_composition(dict(p, title=ascii_in(p["title"]), author=ascii_in(p["author"]), subtitle=ascii_in(p["subtitle"]),
+                                   email="someone@example.org" if p["author"] else ""))
         good = built_ok(p, comp)
     except Exception:
         good = False
